@@ -289,6 +289,14 @@ def run(ctx):
     from graphrules import adjacency_entries_only_for_new_nodes
 
     adjacency_entries_only_for_new_nodes(ctx, prog, flows, "R-C18-4", "so the power iteration runs on a matrix that lacks the edges of `%s` for that node and converges to the eigenvector of another graph")
+    # R-C18-8 (shared with R-C02-3): the weighted iteration reads an edge's weight with get_edge(u, v); it is the weight
+    # of THE stored edge only if add_edge and the lookups canonicalise the pair alike (otherwise a re-added pair is
+    # stored, or tested for, under a second key and the weight read is not the one the dedupe policy kept)
+    from props.c02 import key_discipline
+
+    ae8 = prog.one("creation::Graph::add_edge")
+    only8 = set(prog.reachable_bodies([ae8.path])) | set(prog.reachable_bodies([b.path]))
+    key_discipline(ctx, prog, flows, "R-C18-8", only8, 2, 2, why=" -- restricted to add_edge and to what eigenvector_centrality calls: the matrix entry is the weight found by get_edge")
     ctx.rule("R-C18-3", "the matrix entry of an edge is its stored weight; it is replaced by 1 only when the call is unweighted or the weight is NaN")
     n_w = 0
     for cb in [b] + prog.closures_of(b.path):
